@@ -92,11 +92,26 @@ impl Property for C07 {
                 for _ in 0..12 {
                     let n = 1 + rng.below(7);
                     let ops: Vec<_> = (0..n).map(|_| json!([rng.weighted(&[6, 1, 2, 2, 2]), rng.below(NFILES), rng.below(2 * NVARIANTS)])).collect();
-                    if !emit(json!({"kind": "server-hist", "ops": ops})) {
+                    // the workspace directory: plain, one whose name the editor percent-escapes, one behind a symbolic link
+                    if !emit(json!({"kind": "server-hist", "ops": ops, "ws": rng.weighted(&[3, 2, 1])})) {
                         return;
                     }
                 }
             }),
+            // a document is edited without being saved, closed (its edit is gone: the disk is the truth
+            // again), and reached again through the includes of the root - in each kind of workspace directory
+            Family::new("closed-documents", 3, |ws, _r, emit| {
+                for f in 1..NFILES {
+                    for v in [1usize, 3, 9, 12, 20] {
+                        for ops in [json!([[0, f, v], [1, f, 0], [0, 0, 7]]), json!([[0, 0, 7], [0, f, v], [1, f, 0], [0, 0, 15]]), json!([[0, f, v], [0, 0, 7], [1, f, 0], [1, 0, 0], [0, 0, 7]])] {
+                            if !emit(json!({"kind": "server-hist", "ops": ops, "ws": ws})) {
+                                return;
+                            }
+                        }
+                    }
+                }
+            })
+            .exhaustive(),
             Family::new("random-histories", ctx.tier.pick(48, 1500), |_c, rng, emit| {
                 for _ in 0..40 {
                     let n = 1 + rng.below(12);
@@ -203,7 +218,7 @@ impl Property for C07 {
         Verdict::pass(edits >= 2 && structural && changed)
     }
     fn shrink_keep(&self) -> &'static [&'static str] {
-        &["kind", "seed"]
+        &["kind", "seed", "ws"]
     }
 }
 
@@ -292,7 +307,12 @@ fn sem_history(case: &Case, ops: &[serde_json::Value]) -> Verdict {
 fn server_history(case: &Case, ops: &[serde_json::Value]) -> Verdict {
     use super::session::{compare_with_fresh, LspSession};
     use std::collections::BTreeMap;
-    let Some(mut s) = LspSession::start() else { return Verdict::Skip("initialize-failed") };
+    let tw = match case["ws"].as_u64() {
+        Some(1) => crate::lspc::TempWs::new_special(),
+        Some(2) => crate::lspc::TempWs::new_symlinked(),
+        _ => crate::lspc::TempWs::new(),
+    };
+    let Some(mut s) = LspSession::start_in(tw) else { return Verdict::Skip("initialize-failed") };
     let mut disk = initial_files();
     let mut model: BTreeMap<String, String> = BTreeMap::new();
     for (n, t) in &disk.clone() {
